@@ -53,6 +53,14 @@ pub assume_specification<T, P: FnOnce(&T) -> bool>[ Option::<T>::filter ](o: Opt
   ensures
     o is None ==> r is None,
     o is Some ==> (r == o && p.ensures((&o->Some_0,), true)) || (r is None && p.ensures((&o->Some_0,), false));
+/// ASSUMED std spec: Option::as_deref
+pub assume_specification<T>[ Option::<T>::as_deref ](o: &Option<T>) -> (r: Option<&<T as core::ops::Deref>::Target>)
+  where T: core::ops::Deref
+  ensures r is Some <==> o is Some,
+    o is Some ==> call_ensures(<T as core::ops::Deref>::deref, (&o->Some_0,), r->Some_0);
+/// ASSUMED std spec: bool::then_some
+pub assume_specification<T>[ bool::then_some ](b: bool, t: T) -> (r: Option<T>)
+  ensures r == (if b { Some(t) } else { None::<T> });
 
 // ---- shared credential-crate prelude: foreign types (opaque) + the repository's Credential / Subject / Issuer / Error items ----
 pub mod ctypes {
@@ -163,9 +171,12 @@ pub struct Credential {
   pub properties: Object,
   pub proof: Option<Proof>,
 }
-impl IssuerData { #[verifier::external_body] pub fn id_ref(&self) -> &Url { unimplemented!() } }
+pub uninterp spec fn issuer_data_id(o: &IssuerData) -> &Url;
+pub open spec fn issuer_url_spec(i: &Issuer) -> &Url { match i { Issuer::Url(u) => u, Issuer::Obj(o) => issuer_data_id(o) } }
+impl IssuerData { #[verifier::external_body] pub fn id_ref(&self) -> (r: &Url) ensures r == issuer_data_id(self) { unimplemented!() } }
 impl Issuer {
   pub fn url(&self) -> (r: &Url)
+    ensures r == issuer_url_spec(self),
   {
     match self {
       Self::Url(url) => url,
@@ -267,6 +278,7 @@ pub open spec fn cow_url(c: Cow<'_, Url>) -> Url { match c { Cow::Borrowed(b) =>
 /// ASSUMED: Cow::as_ref yields the value the Cow stands for
 pub uninterp spec fn cow_ref<'a, 'b, T: ?Sized + ToOwned>(c: &'b Cow<'a, T>) -> &'b T;
 pub assume_specification<'a, 'b, T: ?Sized + ToOwned>[ <Cow<'a, T> as AsRef<T>>::as_ref ](c: &'b Cow<'a, T>) -> (r: &'b T) ensures r == cow_ref(c);
+pub assume_specification<'a, 'b, T: ?Sized + ToOwned>[ <Cow<'a, T> as core::ops::Deref>::deref ](c: &'b Cow<'a, T>) -> (r: &'b T) ensures r == cow_ref(c);
 /// ASSUMED: Cow::into_owned yields the value the Cow stands for (a clone of the borrowed value)
 pub uninterp spec fn cow_owned<'a, T: ?Sized + ToOwned>(c: Cow<'a, T>) -> T::Owned;
 pub assume_specification<'a, T: ?Sized + ToOwned>[ Cow::<'a, T>::into_owned ](c: Cow<'a, T>) -> (r: T::Owned) ensures r == cow_owned(c);
@@ -723,6 +735,8 @@ impl<'presentation> PresentationJwtClaims<'presentation> {
   }
 }
 } // mod fns6
+
+
 
 } // verus!
 fn main() {}
